@@ -1,9 +1,14 @@
 """C12 -- Wick's theorem: quadratic models give the free propagator and a vanishing vertex.
 
-Proof (partial): props/Properties_C12.v -- for DIAGONAL h the executable specification PV.EDSpec gives G = delta_ij/(z - eps_i)
-(M = 1,2,3) and chi = documented chi0, i.e. the generated Vertex4::value = 0 (M = 2: all 16 index quadruples, all frequency
-triples in every resonance pattern, all levels incl. degenerate / opposite / zero; generic field + instance over C).
-NOT proved: arbitrary Hermitian h (unitary change of single-particle basis + multilinearity) and larger M.  That part, and the
+Proof (partial): props/Properties_C12.v (22 theorems) -- for DIAGONAL h and EVERY number of modes M the executable specification
+PV.EDSpec gives G = delta_ij/(z - eps_i) (free_gf_diag_allM) and chi = documented chi0, i.e. the generated Vertex4::value = 0
+(free_chi_is_documented_chi0_diag_allM, free_vertex_zero_diag_allM: all index quadruples, all frequency triples in every resonance
+pattern, all levels incl. degenerate / opposite / zero, at every regular point; generic field + instances over C for all real levels,
+all beta > 0, all Matsubara numbers; the older *_partial theorems are the M <= 3 / M = 2 instances).  For ARBITRARY h, in matrix form
+(mathcomp): resolvent_of_rotated_diagonal and lehmann_is_resolvent_any_h (the Lehmann double sum is (z - h)^-1, given the CAR, H
+diagonal in the eigenbasis, normalised weights).
+NOT proved: that EDSpec.gf itself equals that Lehmann sum for non-diagonal h (representation gap between the list-level
+specification and the mathcomp statement), and the vanishing vertex for non-diagonal h.  That part, and the
 correspondence between the specification and the library on free models, is what this module checks on the real library:
 
   random quadratic models written as raw `term 2 h_ab 1 <a> 0 <b>` lines with explicit Hermitian conjugates (real symmetric h
@@ -520,7 +525,7 @@ def shrink(text, modes, h, variant, fl, hbin):
     return btext, hh, best
 
 
-# the cases proved in Coq (two modes, diagonal h; Properties_C12.free_vertex_zero_C_partial), observed on the library: every index quadruple that
+# cases proved in Coq (diagonal h; two modes: Properties_C12.free_vertex_zero_C_partial, any M: free_vertex_zero_diag_allM_C), observed on the library: every index quadruple that
 # does not vanish trivially plus two that do, one frequency triple per resonance pattern
 PROVED_QUADS = [(0, 1, 0, 1), (0, 1, 1, 0), (1, 0, 1, 0), (1, 0, 0, 1), (0, 0, 0, 0), (1, 1, 1, 1), (0, 0, 0, 1), (0, 0, 1, 1)]
 PROVED_TRIPLES = [(0, 1, 2), (1, 0, 1), (0, 1, 1), (0, -1, 2), (0, -1, 0), (0, -1, -1), (1, 1, 1), (-2, 1, -2), (2, -3, -3)]
@@ -585,14 +590,15 @@ def run(chk):
     ok, log = chk.prove()
     chk.trusted += ["translator/translate.py (gen_vertex4): Vertex4::value -> PVgen.Gen_Vertex4, used by the Coq statement",
                     "harness/h_c12.cpp, harness/ed_common.h; python fractions (exact inverse), exact characteristic polynomial for the level-pattern signatures",
-                    "the reduction from arbitrary Hermitian h to diagonal h (unitary change of the single-particle basis, multilinearity of G and chi) "
-                    "is NOT formalised: covered by the numerical comparison only",
+                    "the reduction from arbitrary Hermitian h to diagonal h is formalised for G in matrix form only (lehmann_is_resolvent_any_h, "
+                    "resolvent_of_rotated_diagonal), not for EDSpec.gf itself and not for chi / the vertex: those are covered by the numerical comparison only",
                     "exact zero tests in the Coq setting (tol -> 0+ idealisation of the library's 1e-8 resonance thresholds)"]
     chk.assume += ["h entries are small dyadic rationals (exactly representable); z on a dyadic grid off the real axis",
                    "documented truncation: residues <= 1e-8 dropped in G (at most M*2^(M-1) terms), coefficients <= 1e-16 dropped in chi; "
                    "vertex compared with 0 to 1e-9*(|chi| + beta(|G13 G24| + |G14 G23|)) plus that bound"]
     chk.level = "proof"
-    chk.extra["claim"] = "partial: diagonal h (M<=3 for G, M=2 for the vertex) proved; arbitrary Hermitian h and larger M by the correspondence check only"
+    chk.extra["claim"] = ("partial: diagonal h proved for every M (G, chi = chi0, generated Vertex4::value = 0); arbitrary h: Lehmann sum = (z - h)^-1 proved in "
+                          "matrix form (mathcomp) only; EDSpec.gf for non-diagonal h and the vertex for non-diagonal h by the correspondence check only")
     variants = ["real"] if quick else ["real", "complex"]
     hb = {v: pv.build_harness("h_c12", v) for v in variants}
     first = {}
